@@ -13,7 +13,12 @@ pub struct Case {
 	pub order1: u64,
 	pub order2: u64,
 	pub order3: u64,
+	/// the comment of the mapping set itself (`Mappings::javadoc`; the plain model has no slot for it)
+	#[serde(default)]
+	pub set_doc: Option<String>,
 }
+
+const SET_DOCS: &[&str] = &["about this set", "two\nlines", "tab\there \\ backslash", "", " leading and trailing ", "c\tnot a class line", "\u{1d518}\u{fc}"];
 
 pub fn cfg(hostile_docs: bool) -> GenCfg {
 	GenCfg { ns_min: 2, ns_max: 4, p_missing: 25, style: TargetStyle::Arbitrary, hostile_docs, weird_dollar: true, ..GenCfg::default() }
@@ -68,11 +73,13 @@ fn add_zero_twins(m: &mut MapSet, pick: u16) {
 }
 
 fn strategy(hostile_docs: bool) -> impl Strategy<Value = Case> {
-	(mapset(cfg(hostile_docs)), order_seed(), order_seed(), order_seed(), any::<u16>()).prop_map(|(mut m, order1, order2, order3, tweak)| {
+	(mapset(cfg(hostile_docs)), order_seed(), order_seed(), order_seed(), any::<u16>(), any::<u16>()).prop_map(|(mut m, order1, order2, order3, tweak, doc)| {
 		if tweak % 5 == 0 {
 			add_zero_twins(&mut m, tweak);
 		}
-		Case { m, order1, order2, order3 }
+		// one case in four carries a comment on the set itself
+		let set_doc = if doc % 4 == 0 { Some(SET_DOCS[crate::engine::idx(doc, SET_DOCS.len())].to_string()) } else { None };
+		Case { m, order1, order2, order3, set_doc }
 	})
 }
 
@@ -80,8 +87,12 @@ struct Ns;
 
 fn round_trip<const N: usize>(case: &Case, obs: &mut Obs) -> PropResult {
 	let m = &case.m;
-	let q1 = to_quill::<N, Ns>(m, case.order1).map_err(|e| format!("harness: cannot build quill mappings: {e:#}"))?;
-	let q2 = to_quill::<N, Ns>(m, case.order2).map_err(|e| format!("harness: cannot build quill mappings: {e:#}"))?;
+	let mut q1 = to_quill::<N, Ns>(m, case.order1).map_err(|e| format!("harness: cannot build quill mappings: {e:#}"))?;
+	let mut q2 = to_quill::<N, Ns>(m, case.order2).map_err(|e| format!("harness: cannot build quill mappings: {e:#}"))?;
+	let set_doc = case.set_doc.clone().map(quill::tree::mappings::JavadocMapping);
+	q1.javadoc = set_doc.clone();
+	q2.javadoc = set_doc.clone();
+	obs.label(if set_doc.is_some() { "set_comment:yes" } else { "set_comment:no" });
 	let t1 = quill::tiny_v2::write_string(&q1).map_err(|e| format!("write failed: {e:#}"))?;
 	let t2 = quill::tiny_v2::write_string(&q2).map_err(|e| format!("write failed: {e:#}"))?;
 	if t1 != t2 {
@@ -89,6 +100,9 @@ fn round_trip<const N: usize>(case: &Case, obs: &mut Obs) -> PropResult {
 	}
 	let r = quill::tiny_v2::read::<N, Ns>(t1.as_bytes()).map_err(|e| format!("reading the written text failed: {e:#}\n{t1}"))?;
 	let back = from_quill(&r).map_err(|e| format!("read result inconsistent: {e:#}\n{t1}"))?;
+	if r.javadoc != set_doc {
+		return Err(format!("read(write(M)) lost or changed the comment of the mapping set: {:?} became {:?}\ntext:\n{t1}", set_doc, r.javadoc));
+	}
 	if &back != m {
 		return Err(format!("read(write(M)) != M\nM    = {m:?}\nback = {back:?}\ntext:\n{t1}"));
 	}
@@ -99,7 +113,7 @@ fn round_trip<const N: usize>(case: &Case, obs: &mut Obs) -> PropResult {
 		return Err(format!("write() into a sink that takes 1..7 bytes per call delivered {} of {} bytes", short.out.len(), t1.len()));
 	}
 	let rs = quill::tiny_v2::read::<N, Ns>(crate::engine::ShortReads::new(t1.as_bytes())).map_err(|e| format!("reading from a source with short reads failed: {e:#}"))?;
-	if from_quill(&rs).map_err(|e| format!("read result (short reads) inconsistent: {e:#}"))? != back {
+	if from_quill(&rs).map_err(|e| format!("read result (short reads) inconsistent: {e:#}"))? != back || rs.javadoc != set_doc {
 		return Err("reading from a source with short reads gives another mapping set".into());
 	}
 	let t3 = quill::tiny_v2::write_string(&r).map_err(|e| format!("re-write failed: {e:#}"))?;
@@ -107,10 +121,15 @@ fn round_trip<const N: usize>(case: &Case, obs: &mut Obs) -> PropResult {
 		return Err(format!("write(read(write(M))) differs from write(M):\n{t1}\n---\n{t3}"));
 	}
 	// text quill did not produce: same content, sibling sections in another order
-	let ht = text::tiny(m, case.order3);
+	let mut ht = text::tiny(m, case.order3);
+	if let Some(d) = &case.set_doc {
+		// the set's own comment sits right after the header, one tab in (that is where quill's writer puts it)
+		let at = ht.find('\n').map(|i| i + 1).unwrap_or(ht.len());
+		ht.insert_str(at, &format!("\tc\t{}\n", text::esc(d)));
+	}
 	let r2 = quill::tiny_v2::read::<N, Ns>(ht.as_bytes()).map_err(|e| format!("reading harness-written text failed: {e:#}\n{ht}"))?;
 	let back2 = from_quill(&r2).map_err(|e| format!("read result inconsistent: {e:#}\n{ht}"))?;
-	if &back2 != m {
+	if &back2 != m || r2.javadoc != set_doc {
 		return Err(format!("read(harness text) != M\nM    = {m:?}\nback = {back2:?}\ntext:\n{ht}"));
 	}
 	let t4 = quill::tiny_v2::write_string(&r2).map_err(|e| format!("write failed: {e:#}"))?;
